@@ -39,7 +39,9 @@ CHECKS = {
         text='All graphs up to 3 nodes (4 in thorough, with stated restrictions per layer) plus a fixed family of 4-6 node '
              'shapes are generated through model.generate for every output/with_values combination of the layer; value '
              'terms, observed twins, discrepancy observed tuples, batch_size/random_state/meta placement, rejection of '
-             'stochastic observed data and per-operation call counts must equal the reference.',
+             'stochastic observed data and per-operation call counts must equal the reference. A second section runs '
+             'every submit / wait_next sequence of a BatchHandler (<= 3 batches in flight): each batch must see its own '
+             'run metadata and equal the batch computed alone.',
         note='Trusted: the reference interpreter (vmc/ref/c03_ref.py) as the reading of the statement; stated exclusions: '
              'parallel edges, named edges into Prior/Discrepancy, uses_meta on summaries. Any exception counts as rejection.',
         design_ref='4 C03'),
@@ -127,7 +129,9 @@ CHECKS = {
              'optimised) the posterior log density is compared with log Phi((h-mu)/sd)+log prior on a full grid including '
              'exact bounds and points just outside, its gradient with central differences, and the accelerated '
              'single-point predictions/gradients with GPy; every history of updates (three batch shapes), mode toggles, '
-             'optimisations and predictions must keep evidence as an ordered prefix and never serve outdated cached values.',
+             'optimisations and predictions must keep evidence as an ordered prefix and never serve outdated cached values. '
+             'The posterior BOLFI itself hands out (fit / extract_posterior, default and user-given surrogates with '
+             'parameter order a,b and b,a, non-exchangeable priors) is judged against GPy plus scipy priors.',
         note='Trusted: GPy as the definition of the GP; tolerances 1e-6 (values) / 1e-5 (gradients) relative to the kernel '
              'scale, ill-conditioned fits (cond > 1e8) skipped and counted; analytic normal prior.',
         design_ref='4 C10'),
@@ -204,7 +208,7 @@ CHECKS = {
     'C20': dict(
         level='model_checking',
         technique='bounded product enumeration of the real likelihood, transform and ratio functions against closed-form references from the papers, plus stateless DFS (vmc.explore) over all environment answer sequences (proposal step, simulation finiteness, round log-likelihood) of the real BSL step methods and the real sample() loop, compared with a reference Metropolis',
-        text='On explicit well-conditioned matrices (n <= 20, d <= 3) and observed-vector grids the standard (whitened, Warton-shrunk, glasso-at-0), Ghurye-Olkin and mean/variance-adjusted synthetic log-likelihoods equal their published formulas; for every tuple of bound-row types (<= 3 rows) the logit/log transform round-trips and its log-Jacobian equals the central-difference derivative of the back-transform; _get_mh_ratio equals posterior ratio x Jacobian ratio at the transformed points; for every answer sequence up to chain length 4 (5 for one configuration, 7 with <= 3 deviations) the chain, the stored log densities and the number of simulator invocations equal the reference, and outside-support proposals are recorded as rejections with zero simulations.',
+        text='On explicit well-conditioned matrices (n <= 20, d <= 3) and observed-vector grids the standard (whitened, Warton-shrunk, glasso-at-0), Ghurye-Olkin and mean/variance-adjusted synthetic log-likelihoods equal their published formulas; for every tuple of bound-row types (<= 3 rows) the logit/log transform round-trips and its log-Jacobian equals the central-difference derivative of the back-transform; _get_mh_ratio equals posterior ratio x Jacobian ratio at the transformed points; for every answer sequence up to chain length 4 (5 for one configuration, 7 with <= 3 deviations) the chain, the stored log densities and the number of simulator invocations equal the reference, and outside-support proposals are recorded as rejections with zero simulations; two sample() calls on one object over all ordered pairs of parameter orders (two parameters with different supports) never simulate outside the support and keep every chain state inside it.',
         note='Trusted: numpy/scipy linear algebra and special functions in the reference; scipy.stats uniform/truncnorm prior reference. Tolerances 1e-10 (unshrunk Gaussian, misspec) and 1e-8 (Ghurye-Olkin) relative to max(1,|value|), the exact bound of the 1e-5 Warton jitter; the +-700 exponent clip is accepted; u == prob ties unjudged (none occurred); the Ghurye-Olkin reference is self-tested unbiased (d=1 quadrature). Out of scope: the gamma slice sampler, glasso with penalty > 0, the semi-parametric estimator (not in the statement; runs only with --only lik-semiparam), ill-conditioned inputs.',
         design_ref='4 C20'),
     'C15': dict(
